@@ -194,6 +194,8 @@ class Point2D(object):
         return self
 
     def scale(self, xscale: float, yscale: float) -> Point2D:
+        if isinstance(xscale, str) or isinstance(yscale, str):
+            raise TypeError
         float(xscale)
         float(yscale)
         self._x *= xscale
